@@ -110,9 +110,12 @@ pub fn check_doc(ctx: &mut Ctx, env: &Envelope, m: &M, bytes: &[u8], what: &str,
         if la != ma {
             ctx.violate("C01.assertion-digests", format!("after {}: assertions() digests differ from spec", what));
         }
-        // walk order and digests
-        let walked = walk_digests(env);
-        let expect: Vec<D> = m.positions().iter().map(|p| p.digest()).collect();
+        // the walk reports every position's digest (compared as multisets: the order in which siblings are
+        // visited is not part of this property)
+        let mut walked = walk_digests(env);
+        let mut expect: Vec<D> = m.positions().iter().map(|p| p.digest()).collect();
+        walked.sort();
+        expect.sort();
         if walked != expect {
             ctx.violate("C01.walk-digests", format!("after {}: walk visits {} positions, spec tree has {} (or digests differ)", what, walked.len(), expect.len()));
         }
